@@ -397,6 +397,9 @@ func RunInterleaving(scratch string, pair ReloadPair, p ReloadProbe, order []str
 	}
 	verifhook.SetGate(nil)
 	r.seed(2) // fresh ready messages in the routes as they are now
+	if p.Kind == "ingress2" {
+		time.Sleep(1100 * time.Millisecond) // the probe above may have used the new limiter's token: let it refill
+	}
 	settled = r.answer(p)
 	return procs["p"].result, segs["p"], segs["r"], settled, procs["r"].result == "ok", nil
 }
